@@ -478,6 +478,19 @@ def run(ctx):
     # slot - the same exploration as C15's pool slice, whose conservation claims belong to this property
     import C15_pool
     C15_pool.check_supervision(ctx, prog)
+    # what a stopping factory does with the jobs still waiting (factory queue and the workers' own queues)
+    import C13_stop
+    import C13_stop_replay
+    C13_stop.check(ctx, prog)
+    try:
+        bad, n = C13_stop_replay.battery()
+        ctx.translator_validated += n
+        if bad:
+            rec = {'name': 'stop.native_battery', 'group': 'C13.stop', 'solver_s': 0.0, 'status': 'cex'}
+            ctx.obligations.append(rec)
+            ctx.handle_cex(rec['name'], 'C13.stop.native', None, lambda _m: {'replayed': True, 'detail': 'real Factory::post_stop: %s' % bad[:3], 'replay': {'which': 'stop', 'rp': {'fq': 0, 'wq': [0]}}}, rec)
+    except RuntimeError as e:
+        ctx.inconclusive.append('stop native battery unavailable: %s' % str(e)[-300:])
     # hypothesis H2: the dead incarnation's completion report handled after the replacement was given a job of the same key
     import C13_stale
     C13_stale.check(ctx, prog)
@@ -488,6 +501,12 @@ def replay_file(path):
     import json
     import C13_replay
     d = json.load(open(path))
+    if d['replay'].get('which') == 'stop':
+        import C13_stop_replay
+        bad, _n = C13_stop_replay.battery()
+        bad += C13_stop_replay.evaluate(d['replay']['rp']['fq'], d['replay']['rp']['wq'])[0]
+        print('native Factory::post_stop:', bad)
+        return 1 if bad else 0
     if d['replay'].get('which') == 'stale':
         import C13_stale_replay
         r = C13_stale_replay.replay(d['replay']['qkey'])
